@@ -83,7 +83,7 @@ pub fn from_repr_inner(ast: &DeriveInput) -> syn::Result<TokenStream> {
         let const_var_ident = format_ident!("{}", const_var_str);
 
         let const_val_expr = match &variant.discriminant {
-            Some((_, expr)) => quote! { #expr },
+            Some((_, expr)) => super::enum_discriminants::visible_groups(quote! { #expr }),
             None => match &prev_const_var_ident {
                 Some(prev) => quote! { #prev + 1 },
                 None => quote! { 0 },
